@@ -893,6 +893,15 @@ func (x *xexec) doCrash(op *Op) {
 			x.pendSnap = append(x.pendSnap, fmt.Sprintf("restart@%d->%d form=%s: %s", crashIdx, r, op.Form, d))
 		}
 	}
+	if x.ep.Regen {
+		// second generation: the wallet re-exports its secrets from the rebuilt
+		// object; the next restart uses those
+		x.seed = o.seed
+		x.durExt = o.ext
+		x.durHex = string(append([]byte(nil), o.hexSeed...))
+		x.durMnem = string(append([]byte(nil), o.mnem...))
+		x.res.Probes.Add("restart:secrets-re-exported", 1)
+	}
 }
 
 func planKind(op *Op) string {
